@@ -95,6 +95,7 @@ def smodelOf (j : Json) : Except String SModel := do
          pk := ← strList (← j.getObjVal? "pk"),
          dims := ← (arrD j "dims").toList.mapM dimOf,
          measures := ← (arrD j "measures").toList.mapM measureOf,
+         segments := ← (arrD j "segments").toList.mapM (fun sj => do pure { name := ← str sj "name", sql := ← exprOf (← sj.getObjVal? "sql") }),
          defaultTimeDim := optStr j "default_time_dimension", defaultGrain := optStr j "default_grain" }
 
 def optNat (j : Json) (k : String) : Option Nat :=
@@ -112,7 +113,7 @@ def queryOf (j : Json) : Except String Query := do
     | [.str f, .str d] => pure (f, d)
     | _ => throw "bad alias"
   pure { metrics := ← strList (Json.arr (arrD j "metrics")), dims := ← strList (Json.arr (arrD j "dims")),
-         filters := ← (arrD j "filters").toList.mapM exprOf, orderBy := ob,
+         filters := ← (arrD j "filters").toList.mapM exprOf, segments := ← strList (Json.arr (arrD j "segments")), orderBy := ob,
          limit := optNat j "limit", offset := optNat j "offset", ungrouped := boolD j "ungrouped" false, aliases := al }
 
 /-- {"cols":[..],"rows":[[..],..]} -/
